@@ -62,6 +62,7 @@ type c07State struct {
 }
 
 var probeTexts = []string{
+	"SELECT sum(x), Count(y), toDate(z), UPPER(s), lower(s), Trim(s), SUBSTRING(s, 1), position(a, b), dateDiff('day', a, b), arrayMap(q -> q, r), If(a, b, c) FROM t WHERE x IN (1) AND y LIKE 'a'",
 	"SELECT 'a\\nb', 'it''s', 'back\\\\slash', `we ird`, \"q\", -1, 1.5e3, [1, 'x'], (1, 'y'), CAST(z AS Enum8('a\\'b' = 1)), ['p\\nq']::Array(String) AS al, 0x1F, 18446744073709551616",
 	"CREATE TABLE t (a Int8 COMMENT 'c\\nd', b Tuple(x String, `y z` Int8) DEFAULT (1, 2)) ENGINE = MergeTree ORDER BY a SETTINGS s = 'v\\n'",
 	"ALTER TABLE t DROP PARTITION ID 'p\\nq', MODIFY COLUMN c String COMMENT 'it''s'",
@@ -292,6 +293,50 @@ func runC07(w *W) {
 		if !obs.Panicked && !obs.Budget && len(obs.Stmts) > 0 {
 			st.history = append(st.history, obs.Stmts)
 			st.histText = append(st.histText, trunc(h, 80)+fmt.Sprintf("… (%d bytes)", len(h)))
+		}
+	}
+	// the probes themselves re-spelled (all upper case / all lower case outside quotes): whatever is cached per name,
+	// keyword or literal must not make the first spelling seen in the process stick
+	for _, pt := range probeTexts {
+		for _, f := range []func(string) string{strings.ToUpper, strings.ToLower} {
+			var sb strings.Builder
+			inq := byte(0)
+			start := 0
+			flush := func(end int) { sb.WriteString(f(pt[start:end])); start = end }
+			for i := 0; i < len(pt); i++ {
+				c := pt[i]
+				if inq == 0 && (c == '\'' || c == '`' || c == '"') {
+					flush(i)
+					inq = c
+				} else if inq != 0 && c == inq {
+					sb.WriteString(pt[start : i+1])
+					start = i + 1
+					inq = 0
+				} else if inq != 0 && c == '\\' {
+					i++
+				}
+			}
+			if inq == 0 {
+				flush(len(pt))
+			} else {
+				sb.WriteString(pt[start:])
+			}
+			h := sb.String()
+			in := []byte(h)
+			obs := safeParse(in, parseBudget(in))
+			if !obs.Panicked && !obs.Budget && len(obs.Stmts) > 0 {
+				st.history = append(st.history, obs.Stmts)
+				st.histText = append(st.histText, h)
+			}
+			// "what was rendered before it" includes the case where the OTHER spelling comes first: a fresh process renders
+			// the re-spelled text and then the probe; the probe must come out as it does here, where it was rendered first
+			if w.Shard == 0 {
+				if d := c11FreshReplay([]string{pt, h}); d != nil && d[0] != sumHex(c11Outputs(pt)) {
+					w.Count("bad:history@fresh-order")
+					w.Report(Finding{Kind: "history", Key: "history@fresh-order", Input: fmt.Sprintf("%q", pt), InputHex: hexs([]byte(pt)),
+						Detail: fmt.Sprintf("a fresh process that first renders %q and then the probe renders the probe differently from a process that renders the probe first", trunc(h, 200))})
+				}
+			}
 		}
 	}
 	// corpus statements with FORMAT (any kind) are history too
